@@ -233,3 +233,70 @@ def check_delegations(ctx, res, config="all"):
                 else:
                     res.fail(Finding("R10-uniform-new", c.path, "new_inclusive must be new(low, high + 1)", c))
     res.clause("R10: RandomBits forwards self.bits; Uniform*::sample = base + below(len) with base = low, len = high - low (inclusive: high + 1)")
+
+
+def check_gen_bits(ctx, res, config="all"):
+    """gen_bits: fill the whole u32 slice from the RNG, then (only when rem > 0) shift the *last* word right by 32 - rem;
+    no other write to the words (value stability of the documented stream function)"""
+    from . import r4
+
+    facts = ctx.facts(config)
+    bs = facts.find(suffix="bigrand::gen_bits")
+    if len(bs) != 1:
+        res.fail(Finding("R10-anchor-lost", "gen_bits", "not found", file="src/bigrand.rs", line=0))
+        return
+    b = bs[0]
+    errs = []
+    fills = [(i, t) for i, t in b.calls() if callee_name(t) == "fill" and i in b.live_blocks()]
+    if len(fills) != 1:
+        errs.append("expected exactly one rng.fill(data)")
+    else:
+        rr = core.Flow(b).roots_of_operand(fills[0][1]["args"][1])
+        if not any(r[0] == "param" and r[1] == 2 and not [f for f in r[2] if f.startswith("#sub")] for r in rr):
+            errs.append("fill does not cover the whole word slice")
+    # writes to the words
+    writes = [(i, si, s) for i, si, s in b.stmts() if s["k"] == "assign" and s["place"]["local"] == 2 and any(e["k"] == "deref" for e in s["place"]["proj"])]
+    other_mut = [callee_name(t) for i, t in b.calls() if i in b.live_blocks() and callee_name(t) not in ("fill", "len") and any((core.op_place(a) or {}).get("local") is not None and b.local_ty(core.op_place(a)["local"]).startswith("&mut [u32]") for a in t["args"])]
+    if other_mut:
+        errs.append("the words are also modified by %s" % other_mut)
+    if len(writes) != 1:
+        errs.append("expected exactly one in-place update of a word, found %d" % len(writes))
+    else:
+        i, si, s = writes[0]
+        rv = s["rv"]
+        if not (rv["k"] == "binop" and rv["op"] in ("Shr", "ShrUnchecked")):
+            errs.append("the top word is not updated by a right shift")
+        else:
+            # guarded by rem > 0
+            tl, atoms = tests_of(b)
+            guarded = False
+            for t in tl:
+                c = t.cond
+                if c is not None and c.kind == "cmp" and params_of(c.a) == {3} and consts_of(c.b) == {0}:
+                    edge = {"Gt": t.t, "Ne": t.t, "Eq": t.f, "Le": t.f}.get(c.op)
+                    if edge is not None and b.edge_dominates((t.bb, edge), i):
+                        guarded = True
+            if not guarded:
+                errs.append("the shift is not restricted to rem > 0 (for rem = 0 a shift by 32 would zero or overflow the word)")
+            # amount = 32 - rem, index = len - 1
+            try:
+                for rem in range(1, 32):
+                    amt = r4.eval_int(b, rv["b"], {3: rem})
+                    if amt != 32 - rem:
+                        errs.append("shift amount for rem=%d is %d, expected %d" % (rem, amt, 32 - rem))
+                        break
+            except r4.CantEval as e:
+                errs.append("cannot evaluate the shift amount (%s)" % e)
+            idx = [e for e in s["place"]["proj"] if e["k"] == "index"]
+            if not idx:
+                errs.append("the shifted word is not selected by index")
+            else:
+                il = idx[0]["local"]
+                a = atoms.of_local(il)
+                if not ("len" in calls_of(a) and params_of(a) == {2} and 1 in consts_of(a)):
+                    errs.append("the shifted word is not the last one (index len - 1)")
+    if errs:
+        res.fail(Finding("R10-gen-bits", b.path, "; ".join(errs), b))
+    else:
+        res.ok("R10-gen-bits", b.path, {"fill": "whole slice", "top_word": "data[len-1] >>= 32 - rem, only for rem > 0"})
+    res.clause("R10: gen_bits fills every word from the RNG and only shifts the last word right by 32 - rem when rem > 0")
